@@ -150,9 +150,7 @@ fn array4_update_case(start: (Array4, [u8; 16]), exceptions: usize) {
     }
     check_view(&a, &model);
     kani::cover!(value > old && value >= a.cur_min + 15 && old < a.cur_min + 15); // new exception
-    if exceptions > 0 {
-        kani::cover!(value > old && old >= a.cur_min + 15); // exception replaced
-    }
+    kani::cover!(exceptions == 0 || (value > old && old >= a.cur_min + 15)); // exception replaced
     kani::cover!(value > old && value < a.cur_min + 15); // plain nibble
     core::mem::forget(a);
 }
@@ -215,15 +213,13 @@ fn array4_shift_case(start: (Array4, [u8; 16]), exceptions: u32) {
     }
     let have = a.aux_map.as_ref().map(|m| va::count(m)).unwrap_or(0);
     assert!(have == need, "exception table does not hold exactly the registers that need it");
-    if exceptions == 2 {
-        kani::cover!(had_aux == 2 && have == 1);
-        kani::cover!(had_aux == 2 && have == 2);
-        kani::cover!(had_aux == 2 && have == 0);
-    }
-    if exceptions == 1 {
-        kani::cover!(had_aux == 1 && have == 1);
-        kani::cover!(had_aux == 1 && have == 0);
-    }
+    // (covers are written as single expressions: a cover in a branch that is dead for an instance counts as
+    // unsatisfied)
+    kani::cover!(exceptions != 2 || (had_aux == 2 && have == 1));
+    kani::cover!(exceptions != 2 || (had_aux == 2 && have == 2));
+    kani::cover!(exceptions != 2 || (had_aux == 2 && have == 0));
+    kani::cover!(exceptions != 1 || (had_aux == 1 && have == 1));
+    kani::cover!(exceptions != 1 || (had_aux == 1 && have == 0));
     kani::cover!(have == 0);
     core::mem::forget(a);
 }
@@ -251,9 +247,9 @@ macro_rules! array4_shift {
 //@ bounds: lg_k = 4, any valid state with no register at cur_min (the only state in which a shift happens), cur_min 0..=40, exception slots concrete per instance (none; 3; 3 and 12; 3 and 7 colliding in the aux table) with symbolic values; the *_any_layout instance quantifies over every valid aux layout with <= 2 exceptions
 //@ assumes: Array4 representation invariant
 //@ desc: shift_to_bigger_cur_min leaves every register value unchanged while cur_min grows by one: nibbles are decremented, exceptions that now fit move back into the nibbles, the others stay exceptions (an exception of exactly new cur_min + 15 stays one), num_at_cur_min is recounted; no internal assertion fires when exceptions are present
-array4_shift!(c02_array4_shift_e0, array4_with_exceptions(&E0), 0); //@ tier: quick
+array4_shift!(c02_array4_shift_e0, array4_with_exceptions(&E0), 0);
 array4_shift!(c02_array4_shift_e1, array4_with_exceptions(&E1), 1); //@ tier: quick
-array4_shift!(c02_array4_shift_e2, array4_with_exceptions(&E2), 2); //@ tier: quick
+array4_shift!(c02_array4_shift_e2, array4_with_exceptions(&E2), 2);
 array4_shift!(c02_array4_shift_e2_colliding, array4_with_exceptions(&E2C), 2);
 array4_shift!(c02_array4_shift_any_layout, any_array4(), 3);
 //@ endfamily: x
